@@ -836,7 +836,10 @@ def _rows_vo(rows_txt):
     h = hashlib.sha1((rows_txt + model).encode()).hexdigest()[:12]
     d = os.path.join(vlib.COQ, 'Cases', f'C18rows_{h}')
     vo = os.path.join(d, 'Rows.vo')
-    with vlib.Lock():
+    import fcntl
+    os.makedirs(vlib.BUILD, exist_ok=True)
+    with open(os.path.join(vlib.BUILD, '.c18rows.lock'), 'w') as lk:     # own lock: never wait for other checks' proofs
+        fcntl.flock(lk, fcntl.LOCK_EX)
         if not os.path.exists(vo):
             import glob, shutil
             for old in glob.glob(os.path.join(vlib.COQ, 'Cases', 'C18rows_*')):
